@@ -289,7 +289,7 @@ pub mod state {
 
     //@ fn src/writers/file_log_writer/state.rs impl RollState / fn new
     //@   ret r
-    //@   props C08,C06
+    //@   props C08,C06,C09
     //@   ens[RollState::new.post.seed] match r {
     //@       Ok(rs) => rs == RollState::seeded(criterion, if append { metadata_len(&fs_metadata_result(path_view(path))->Ok_0) } else { 0 }, path_view(path))
     //@                 && (append ==> fs_metadata_result(path_view(path)) is Ok),
